@@ -6,4 +6,5 @@ import Proofs.C03
 #print axioms Xsel.C03.union_assoc
 #print axioms Xsel.C03.union_idem
 #print axioms Xsel.C03.union_self_of_sorted
+#print axioms Xsel.C03.nodup_of_strict
 #print axioms Xsel.C03.count_union
